@@ -11,9 +11,10 @@ CFG) followed by phi elimination with edge splitting.
 Only locals for which this is safe *and* useful are split:
   * not an argument, never mutably borrowed or partially written (those keep an identity, core.Body.mut_locals),
   * at least two whole-local definitions outside cleanup blocks,
-  * no definition inside a natural loop (loop-carried state -- accumulators, scan states, the '?'/'&' prefix -- is what
-    the loop analyses are written against),
-  * not of type bool (drop flags and the materialised results of `matches!` / `||` are recognised by their shape).
+  * not loop-carried (accumulators, scan states, the '?'/'&' prefix are what the loop analyses are written against): a
+    variable whose versions meet at a loop header is left alone,
+  * not a bool that only ever receives constants (drop flags and the materialised results of `matches!` / `||` are
+    recognised by their shape; purlsa.thread removes the re-test where it can).
 """
 import copy
 
@@ -44,12 +45,15 @@ def candidates(body):
     for l, ds in sorted(body.defs().items()):
         if l == 0 or l <= body.arg_count or l in mut:
             continue
-        if body.locals[l]["ty"] == "bool":
-            continue
         live = [d for d in ds if not body.is_cleanup(d[0])]
+        if body.locals[l]["ty"] == "bool":
+            # drop flags and purely materialised conditions (constant stores only) are recognised by their shape; a bool that
+            # also receives a computed value (the last operand of `a || f(x)`) is an ordinary variable
+            def is_const(d):
+                return d[2] == "rv" and d[3]["r"] == "use" and d[3]["op"]["o"] == "const"
+            if all(is_const(d) for d in live):
+                continue
         if len(live) < 2:
-            continue
-        if any(d[0] in inloop for d in live):
             continue
         out.append(l)
     return out
@@ -77,6 +81,7 @@ def split_locals(body):
     cands = candidates(body)
     if not cands:
         return []
+    loop_headers = set(body.loops().keys())
     reach = body.reachable_from(0)
     preds_all = body.preds()
     preds = {b: [p for p in preds_all[b] if p in reach and not body.is_cleanup(p)] for b in reach}
@@ -208,6 +213,9 @@ def split_locals(body):
                     need(o)
         for (_, _, ver) in resolved_uses:
             need(ver)
+        if any(ph.block in loop_headers for ph in needed):
+            # loop-carried: the value of one iteration reaches the next.  Left alone (see the module comment).
+            continue
         for ph in needed:
             new_locals.append(dict(new_locals[v], ssa_of=v, ssa_phi=True))
             ph.local = len(new_locals) - 1
